@@ -49,8 +49,14 @@ def indicator (xs : List (Option Level)) (l : String) : List Entry :=
     | some v => some (if v.label == l then 1 else 0)
     | none => none)
 
-/-- what one piece of a label denotes; `none`: the statement does not define it -/
-def pieceColumn (env : Env) (table : List (String × Expr)) (piece : String) : M (Option (List Entry)) := do
+/-- what one piece of a label denotes on the rows of `env`; `none`: the statement does not define
+it.  `tenv` = the frame the design was built from when `env` is a *new* frame handed to
+`evaluate_new_data` ("every design" includes those matrices; they carry the training labels): a
+call atom is then read as the same call with the state its transforms remembered at training time
+(`center(x)` = `x` minus the training mean), everything else is read on `env` alone.  With
+`tenv = none` the column is read on `env` alone (a training design). -/
+def pieceColumnAt (tenv : Option Env) (env : Env) (table : List (String × Expr)) (piece : String) :
+    M (Option (List Entry)) := do
   let n := env.frame.nrows
   if piece == "Intercept" || piece == "1" then pure (some (List.replicate n (some 1))) else
   let (name, level) := stripLevel piece
@@ -60,9 +66,15 @@ def pieceColumn (env : Env) (table : List (String × Expr)) (piece : String) : M
   | none => pure none
   | some (_, e) =>
     let r : M Val := match e with
-      | .call .. | .brace .. => do
-        let (v, _) ← posOnly (evalArg env e none)
-        pure v
+      | .call .. | .brace .. =>
+        match tenv with
+        | Option.none => do
+          let (v, _) ← posOnly (evalArg env e Option.none)
+          pure v
+        | some te => do
+          let (_, ts) ← posOnly (evalArg te e Option.none)
+          let (v, _) ← posOnly (evalArg env e (some ts))
+          pure v
       | .subset x _ _ _ => lookupName env x.lexeme
       | .quoted t => lookupName env (String.ofList ((t.lexeme.toList.drop 1).dropLast))
       | .variable x => lookupName env x.lexeme
@@ -83,17 +95,24 @@ def pieceColumn (env : Env) (table : List (String × Expr)) (piece : String) : M
     | .offsetConst q, none => pure (some (List.replicate n (some q)))
     | _, _ => pure none
 
+def pieceColumn (env : Env) (table : List (String × Expr)) (piece : String) : M (Option (List Entry)) :=
+  pieceColumnAt Option.none env table piece
+
 def mulCols (a b : List Entry) : List Entry := List.zipWith Entry.mul a b
 
 /-- the column a label denotes: product of its pieces (`:` inside the effect and the group part,
 `|` between them) -/
-def decodeLabel (env : Env) (table : List (String × Expr)) (label : String) : M (Option (List Entry)) := do
+def decodeLabelAt (tenv : Option Env) (env : Env) (table : List (String × Expr)) (label : String) :
+    M (Option (List Entry)) := do
   let pieces := (splitTop '|' label).flatMap (splitTop ':')
-  let cols ← pieces.mapM (pieceColumn env table)
+  let cols ← pieces.mapM (pieceColumnAt tenv env table)
   match cols.mapM id with
   | none => pure none
   | some [] => pure none
   | some (c :: cs) => pure (some (cs.foldl mulCols c))
+
+def decodeLabel (env : Env) (table : List (String × Expr)) (label : String) : M (Option (List Entry)) :=
+  decodeLabelAt Option.none env table label
 
 def closeQ (a b : Rat) : Bool :=
   let d := if a ≤ b then b - a else a - b
@@ -114,7 +133,8 @@ structure Verdict where
   firstBad : Option String
 
 /-- labels and columns equal in number, and every column holds what its label says -/
-def check (env : Env) (table : List (String × Expr)) (labels : List String) (m : Matrix) : M Verdict := do
+def checkAt (tenv : Option Env) (env : Env) (table : List (String × Expr)) (labels : List String)
+    (m : Matrix) : M Verdict := do
   if labels.length != m.ncols && !(m.isEmpty) then
     pure ⟨false, 0, 0, some "number of labels differs from the number of columns"⟩
   else
@@ -122,7 +142,7 @@ def check (env : Env) (table : List (String × Expr)) (labels : List String) (m 
       match ls with
       | [] => pure ⟨true, judged, skipped, none⟩
       | l :: rest => do
-        match (← decodeLabel env table l) with
+        match (← decodeLabelAt tenv env table l) with
         | none => go rest (j + 1) judged (skipped + 1)
         | some want =>
           let have_ := column m j
@@ -130,6 +150,10 @@ def check (env : Env) (table : List (String × Expr)) (labels : List String) (m 
             go rest (j + 1) (judged + 1) skipped
           else pure ⟨false, judged, skipped, some l⟩
     go labels 0 0 0
+
+/-- a training design: labels and columns read on the frame the design was built from -/
+def check (env : Env) (table : List (String × Expr)) (labels : List String) (m : Matrix) : M Verdict :=
+  checkAt Option.none env table labels m
 
 /-- order of the levels of one plain categorical variable in consecutive single-piece labels:
 sorted for unordered data, the declared order for an ordered categorical -/
